@@ -209,7 +209,7 @@ inline void account(Stats& st, const Verdict& v, const J& rec, long long cases, 
     J e = J::obj(); e["ratio"] = J::number(v.ratio); e["rel"] = J::str(v.worst); e["msg"] = J::str(v.msg); e["rec"] = rec;
     st.top.emplace_back(v.ratio, e);
     std::sort(st.top.begin(), st.top.end(), [](const std::pair<double, J>& a, const std::pair<double, J>& b) { return a.first > b.first; });
-    if (st.top.size() > 8) st.top.resize(8);
+    { static const size_t lim = std::getenv("VF_TOP") ? (size_t)std::atoi(std::getenv("VF_TOP")) : 8; if (st.top.size() > lim) st.top.resize(lim); }
   }
   if (v.st == Verdict::SKIP) {
     ++st.skipped; long long n = ++st.skips[v.msg.substr(0, 60)];
